@@ -1,7 +1,7 @@
 (* KvC14Trace.v - C14: the whole step checker chk_step_C14 (the armed timer covers every stored expiry after
    every step; a firing tombstones exactly the due documents, each with a deletion event, and leaves every
    other row as it was; a call leaves the expiry its arguments say) accepts every history of the model.    *)
-From Rosmar Require Import Base Json Crc Hlc HlcProofs Kv Store Trace KvTac KvRowOk KvLift KvFrame KvC14 ExpProofs KvTrace.
+From Rosmar Require Import Base Json Crc Hlc HlcProofs Kv Store Trace KvTac KvRowOk KvLift KvFrame KvC14 ExpProofs KvTrace Sweep.
 
 (* lifting a per-step check that needs an invariant over (store, armed deadline) *)
 Theorem walk_sound_inv (chk : step_chk) (Inv : store -> N -> Prop) :
@@ -40,43 +40,49 @@ Proof.
   apply covers_of_cov. unfold get_doc in Eg. apply (alookup_In dkey_eqb dkey_eqb_spec) in Eg. exact (Hcov _ Eg).
 Qed.
 
-(* ---- a firing neither creates documents nor touches the collections ---- *)
-Lemma kv_on_delete_absent s x cid key k' : get_doc s k' = None -> get_doc (sr_store (kv_on s x cid key KDelete)) k' = None.
+(* ---- a step of a sweep, whole or interrupted: it removes, of the documents it is about, exactly those whose expiry
+   has passed when the step is taken, and leaves every other row as it was ---- *)
+Lemma c14_sweep_sound s n' x o colls keys xn (n : N) : tables_ok s -> is_sweep o = true ->
+  let res := sstep s x o in
+  forallb (fun e => match look (fst e) (sn_rows (with_next (snap (sr_store res) colls keys xn) n')) with
+                    | Some o1 =>
+                        let e0 := row_exp (snd e) in
+                        if (0 <? e0) && (e0 <=? x_now x) && sweep_takes (sn_colls (with_next (snap s colls keys xn) n)) o (fst (fst e)) (snd (fst e))
+                        then negb (o_exists o1) && (row_exp o1 =? 0)
+                             && existsb (fun f => String.eqb (f_key f) (snd (fst e)) && (if fopcode_eq_dec (f_op f) FDeletion then true else false)) (fevents_of (sr_events res))
+                        else obsrow_eqb (snd e) o1
+                    | None => false
+                    end) (sn_rows (with_next (snap s colls keys xn) n)) = true.
 Proof.
-  intros Hn. destruct (dkey_eqb k' (cid, key)) eqn:E.
-  - apply dkey_eqb_spec in E. subst k'. rewrite get_doc_kv_on, Hn. reflexivity.
-  - rewrite kv_on_frame; [exact Hn|]. intros ->. rewrite (proj2 (dkey_eqb_spec _ _) eq_refl) in E. discriminate.
-Qed.
-
-Lemma expire_keys_absent x cid keys k' : forall s acc, get_doc s k' = None -> get_doc (fst (expire_keys s x cid keys acc)) k' = None.
-Proof. induction keys as [|k r IH]; intros s acc Hn; cbn [expire_keys]; [exact Hn|]. apply IH. apply kv_on_delete_absent. exact Hn. Qed.
-
-Lemma expire_colls_absent x cids k' : forall s acc, get_doc s k' = None -> get_doc (fst (expire_colls s x cids acc)) k' = None.
-Proof.
-  induction cids as [|cid r IH]; intros s acc Hn; cbn [expire_colls]; [exact Hn|].
-  pose proof (expire_keys_absent x cid (due_keys s cid (x_now x)) k' s acc Hn) as H.
-  destruct (expire_keys s x cid (due_keys s cid (x_now x)) acc) as [s' acc']. apply IH. exact H.
-Qed.
-
-Lemma expire_keys_coll_id x cid keys name : forall s acc, coll_id (fst (expire_keys s x cid keys acc)) name = coll_id s name.
-Proof. induction keys as [|k r IH]; intros s acc; cbn [expire_keys]; [reflexivity|]. rewrite IH. apply coll_id_kv_on. Qed.
-
-Lemma expire_colls_coll_id x cids name : forall s acc, coll_id (fst (expire_colls s x cids acc)) name = coll_id s name.
-Proof.
-  induction cids as [|cid r IH]; intros s acc; cbn [expire_colls]; [reflexivity|].
-  pose proof (expire_keys_coll_id x cid (due_keys s cid (x_now x)) name s acc) as H.
-  destruct (expire_keys s x cid (due_keys s cid (x_now x)) acc) as [s' acc']. cbn [fst] in H. rewrite IH. exact H.
-Qed.
-
-Lemma expire_step_facts s x : tables_ok s ->
-  let res := sstep s x SExpire in
-  (forall name, coll_id (sr_store res) name = coll_id s name)
-  /\ (forall k, get_doc s k = None -> get_doc (sr_store res) k = None).
-Proof.
-  intros Ht. cbv zeta. cbn [sstep].
-  pose proof (fun name => expire_colls_coll_id x (map fst (s_colls s)) name s []) as H1.
-  pose proof (fun k => expire_colls_absent x (map fst (s_colls s)) k s []) as H2.
-  destruct (expire_colls s x (map fst (s_colls s)) []) as [s' evs]. cbn [fst sr_store] in *. split; assumption.
+  intros Ht Ho. cbv zeta.
+  destruct (sweep_correct s x o Ht Ho) as (Hdue & Hkeep & Habs & Hid). cbv zeta in *.
+  set (res := sstep s x o) in *.
+  apply forallb_forall. intros e He. cbn [with_next sn_rows sn_colls] in He |- *. rewrite snap_colls.
+  pose proof (In_snap_rows_keys _ _ _ _ _ He) as [Hcin Hkin].
+  destruct e as [[c k] ob]. cbn [fst snd] in *.
+  apply In_snap_rows in He. cbn [fst snd] in He. destruct He as (cid & Ec & ->).
+  destruct (look (c, k) (sn_rows (snap (sr_store res) colls keys xn))) as [o1|] eqn:El.
+  2:{ exfalso. apply (look_some (sr_store res) colls keys xn c k cid Hcin); [rewrite Hid; exact Ec | exact Hkin | exact El]. }
+  apply look_snap in El. destruct El as (cid' & Ec' & ->). rewrite Hid, Ec in Ec'. inversion Ec'; subst cid'.
+  rewrite row_exp_obs, (sweep_takes_takes s o c cid k Ht Ec).
+  destruct (get_doc s (cid, k)) as [r0|] eqn:Eg.
+  + destruct ((0 <? r_exp r0) && (r_exp r0 <=? x_now x)) eqn:Ed; [destruct (takes s o (cid, k)) eqn:Etk|]; cbn [andb].
+    * (* due, and the step is about it: tombstoned, expiry cleared, a deletion event *)
+      apply andb_true_iff in Ed. destruct Ed as [E1 E2]. apply N.ltb_lt in E1. apply N.leb_le in E2.
+      destruct (Hdue (cid, k) r0 Eg (conj E1 E2) Etk) as [(r' & Hg' & Hv & He0 & Htm) (ev & Hev & Hdel)].
+      rewrite Hg'. rewrite row_exp_obs, He0.
+      assert (o_exists (obs_of cid k xn (Some r')) = false) as ->.
+      { unfold obs_of; cbn [o_exists]. unfold kstep, do_exists; cbn. rewrite Hv. reflexivity. }
+      cbn [negb andb N.eqb]. apply existsb_exists. exists (as_feed_event (cid - 1) k ev). split.
+      -- unfold fevents_of. apply in_map_iff. exists (cid, k, ev). split; [reflexivity | exact Hev].
+      -- cbn [as_feed_event f_key f_op]. rewrite String.eqb_refl, Hdel. reflexivity.
+    * (* due, but not this step's: as it was *)
+      rewrite (Hkeep (cid, k) r0 Eg (or_intror Etk)). apply obsrow_eqb_refl.
+    * (* not due: as it was - never early *)
+      assert (~ due (x_now x) r0) as Hnd.
+      { intros [A B]. apply andb_false_iff in Ed. destruct Ed as [Ed|Ed]; [apply N.ltb_ge in Ed; lia | apply N.leb_gt in Ed; lia]. }
+      rewrite (Hkeep (cid, k) r0 Eg (or_introl Hnd)). apply obsrow_eqb_refl.
+  + cbn [N.ltb N.compare andb]. rewrite (Habs (cid, k) Eg). apply obsrow_eqb_refl.
 Qed.
 
 (* ---- the step checker ---- *)
@@ -95,32 +101,11 @@ Proof.
   - (* a call: the row rule *)
     apply (kv_step_sound chk_row_C14 C14_row_sound s x (SKv coll key op) colls keys xn n _ Hs Hwf).
   - (* a firing *)
-    destruct (fire_correct s x Ht) as [Hdue Hkeep]. destruct (expire_step_facts s x Ht) as [Hid Habs]. cbv zeta in *.
-    set (res := sstep s x SExpire) in *.
-    apply forallb_forall. intros e He. cbn [with_next sn_rows] in He |- *.
-    pose proof (In_snap_rows_keys _ _ _ _ _ He) as [Hcin Hkin].
-    destruct e as [[c k] ob]. cbn [fst snd] in *.
-    apply In_snap_rows in He. cbn [fst snd] in He. destruct He as (cid & Ec & ->).
-    destruct (look (c, k) (sn_rows (snap (sr_store res) colls keys xn))) as [o1|] eqn:El.
-    2:{ exfalso. apply (look_some (sr_store res) colls keys xn c k cid Hcin); [rewrite Hid; exact Ec | exact Hkin | exact El]. }
-    apply look_snap in El. destruct El as (cid' & Ec' & ->). rewrite Hid, Ec in Ec'. inversion Ec'; subst cid'.
-    rewrite row_exp_obs.
-    destruct (get_doc s (cid, k)) as [r0|] eqn:Eg.
-    + destruct ((0 <? r_exp r0) && (r_exp r0 <=? x_now x)) eqn:Ed.
-      * (* due: tombstoned, expiry cleared, a deletion event *)
-        apply andb_true_iff in Ed. destruct Ed as [E1 E2]. apply N.ltb_lt in E1. apply N.leb_le in E2.
-        destruct (Hdue (cid, k) r0 Eg (conj E1 E2)) as [(r' & Hg' & Hv & He0 & Htm) (ev & Hev & Hdel)].
-        rewrite Hg'. rewrite row_exp_obs, He0.
-        assert (o_exists (obs_of cid k xn (Some r')) = false) as ->.
-        { unfold obs_of; cbn [o_exists]. unfold kstep, do_exists; cbn. rewrite Hv. reflexivity. }
-        cbn [negb andb N.eqb]. apply existsb_exists. exists (as_feed_event (cid - 1) k ev). split.
-        -- unfold fevents_of. apply in_map_iff. exists (cid, k, ev). split; [reflexivity | exact Hev].
-        -- cbn [as_feed_event f_key f_op]. rewrite String.eqb_refl, Hdel. reflexivity.
-      * (* not due: the row is as it was *)
-        assert (~ due (x_now x) r0) as Hnd.
-        { intros [A B]. apply andb_false_iff in Ed. destruct Ed as [Ed|Ed]; [apply N.ltb_ge in Ed; lia | apply N.leb_gt in Ed; lia]. }
-        rewrite (Hkeep (cid, k) r0 Eg Hnd). apply obsrow_eqb_refl.
-    + cbn [N.ltb N.compare andb]. rewrite (Habs (cid, k) Eg). apply obsrow_eqb_refl.
+    exact (c14_sweep_sound s _ x SExpire colls keys xn n Ht eq_refl).
+  - (* a sweep that is interrupted, as far as collection wc *)
+    exact (c14_sweep_sound s _ x (SExpireScan wc) colls keys xn n Ht eq_refl).
+  - (* ... and from there on *)
+    exact (c14_sweep_sound s _ x (SExpireK wc keys0 parked) colls keys xn n Ht eq_refl).
 Qed.
 
 Theorem C14_kv_sound c : wf_case c -> chk_C14_kv (c, srun c) = true.
